@@ -166,10 +166,10 @@ func (e *Env) Expired() bool { return time.Now().After(e.Deadline) }
 
 // Check is one property's machinery.
 type Check struct {
-	ID        string
-	Level     string // evidence level
-	Rule      string
-	Assume    []string
+	ID     string
+	Level  string // evidence level
+	Rule   string
+	Assume []string
 	// Budget is the worker time budget per tier.
 	QuickBudget, ThoroughBudget time.Duration
 	// Run explores the shard.
